@@ -419,10 +419,10 @@ def run(chk, repo):
         comps = [n for n in ast.walk(mi) if isinstance(n, ast.Assign) and unparse(n.targets[0]) == "memory"
                  and isinstance(n.value, ast.ListComp) and n in mi.orelse]
         good = False
-        if comps and twname:
+        if comps and (twname or any(c_.value.generators[0].iter is tw for c_ in comps)):
             c = comps[-1].value
             g = c.generators[0]
-            good = unparse(g.iter) == twname and isinstance(g.target, ast.Tuple) and len(g.target.elts) == 2 \
+            good = (unparse(g.iter) == twname or g.iter is tw) and isinstance(g.target, ast.Tuple) and len(g.target.elts) == 2 \
                 and unparse(c.elt) == unparse(g.target.elts[1]) and not g.ifs
         if not comps and twname:
             # L = [] ; for idx, data in tw: L.append(data)   - the same items, in the same order, in a list of their own
